@@ -372,7 +372,7 @@ def run_chain_cmp(desc, seed, viol, tag, hnorm):
     # the same time step handed over in every numeric type a caller may hold it in (a complex-typed REAL step comes out of complex
     # time grids that mix real and imaginary segments): the result must not depend on the type
     from mc.budget import rhs_budget
-    reps = {"real": [("float", 0.1), ("np.float64", np.float64(0.1)), ("complex(0.1,0)", complex(0.1, 0.0)), ("np.complex128(0.1)", np.complex128(0.1)), ("int-valued-float", 1.0 * 0.1)],
+    reps = {"real": [("float", 0.1), ("np.float64", np.float64(0.1)), ("complex(0.1,0)", complex(0.1, 0.0)), ("np.complex128(0.1)", np.complex128(0.1)), ("int-valued-float", 1.0 * 0.1), ("np.float32", np.float32(0.1)), ("0-d array", np.array(0.1))],
             "imag": [("-0.1j", -0.1j), ("np.complex128(-0.1j)", np.complex128(-0.1j)), ("complex(0,-0.1)", complex(0.0, -0.1))]}
     for timek, lst in reps.items():
         ref = None
@@ -391,7 +391,7 @@ def run_chain_cmp(desc, seed, viol, tag, hnorm):
                 continue
             if ref is None:
                 ref = v
-            elif not close(v, ref, 1e-8):
+            elif not close(v, ref, 1e-5 if name == "np.float32" else 1e-8):      # (a single-precision step differs from 0.1 by 1.5e-9)
                 add(viol, f"C12:step-type:{scheme}:{timek}", f"{tag}: tree evolve with the step given as {name} differs from the step given as {lst[0][0]} by rel {rel_err(v, ref):.2e}")
 
 
